@@ -103,6 +103,8 @@ def run_solve(st, opts):
         if not check_tt("C12", cfg, st, tt, x, "tt", N, [], problems):
             continue
         t = cap.trace(cfg, [int(r) for r in x.R])
+        traces.extend(cap.krylov)
+        stats["gmres_calls"] = stats.get("gmres_calls", 0) + cap.krylov_calls
         if t is not None:
             t["kind"] = "amen"
             traces.append(t)
@@ -175,6 +177,8 @@ def run_divide(st, opts):
         if not check_tt("C13", cfg, st, tt, q, "tt", N, [], problems):
             continue
         t = cap.trace(cfg, [int(r) for r in q.R])
+        dtraces.extend(cap.krylov)
+        stats["gmres_calls"] = stats.get("gmres_calls", 0) + cap.krylov_calls
         if t is not None:
             t["kind"] = "amen"
             dtraces.append(t)
